@@ -207,8 +207,10 @@ def _sld_case(keys, dens_kind, arg_kind):
         kw = {dens_kind: rho}
         dens = rho if dens_kind == 'density' else formulas.formula(f, natural_density=rho).density
         en = E.real('energy', lo=0.01, hi=30)
+        snap = cm.Snapshot(compound=f)
         if arg_kind == 'energy':
             got = xsf.xray_sld(f, energy=en, **kw)
+            snap.check(E, 'xray_sld')
             e_used = en
         else:
             lam = xsf.xray_wavelength(en)
